@@ -7,6 +7,7 @@ toolchain go1.23.5
 require (
 	github.com/ansible/receptor v0.0.0
 	github.com/minio/highwayhash v1.0.3
+	github.com/rogpeppe/go-internal v1.12.0
 	pgregory.net/rapid v1.3.0
 )
 
@@ -46,7 +47,6 @@ require (
 	github.com/pbnjay/memory v0.0.0-20210728143218-7b4eea64cf58 // indirect
 	github.com/pelletier/go-toml/v2 v2.2.2 // indirect
 	github.com/quic-go/quic-go v0.40.1 // indirect
-	github.com/rogpeppe/go-internal v1.12.0 // indirect
 	github.com/sagikazarmark/slog-shim v0.1.0 // indirect
 	github.com/songgao/water v0.0.0-20200317203138-2b4b6d7c09d8 // indirect
 	github.com/spf13/afero v1.11.0 // indirect
